@@ -12,7 +12,7 @@ import math
 
 import numpy as np
 
-from harness import common, refmetrics, lattice
+from harness import common, refmetrics, lattice, latticegen
 
 COQ_FILES = ["model/Metrics.v", "proofs/C07Proofs.v", "model/SparseOps.v", "model/Lattice.v", "proofs/C08Proofs.v", "proofs/LatticeProofs.v"]
 SENTINELS = {"pynndescent/distances.py": ["euclidean", "squared_euclidean", "standardised_euclidean", "manhattan", "chebyshev", "minkowski",
@@ -285,6 +285,7 @@ def run(ctx):
     ctx.sentinels_changed = changed
     ctx.notes["sentinels"] = cur
     ctx.build(COQ_FILES)
+    latticegen.regenerate(ctx, "C07")
     binary_exhaustive(ctx, ctx.budget(5, 6))
     lattice.stream(ctx, ctx.budget(600, 6000), "dense")
     general(ctx, ctx.budget(3, 20))
